@@ -9,8 +9,10 @@ from common import Cmat, Cx, R, Rmat, cfl, fl, flmat, max_rel_err
 
 from common import wiring_pre_build as pre_build  # noqa: E402,F401
 
-LEAN_MODULES = ["PyomaVerif.Props.C01", "PyomaVerif.Props.WiringRun", "PyomaVerif.Props.C01C11", "PyomaVerif.Props.C01E2E", "PyomaVerif.Props.C01Stored"]
+LEAN_MODULES = ["PyomaVerif.Props.C01", "PyomaVerif.Props.WiringRun", "PyomaVerif.Props.C01C11", "PyomaVerif.Props.C01E2E", "PyomaVerif.Props.C01Stored", "PyomaVerif.Props.WiringCalls"]
 THEOREMS = [
+    # the exact sequence of core-routine calls of the run()/mpe() body and the exact set of parameters bound at each (regenerated call table)
+    "PV.WiringCalls.C12_ssidat_run_calls",
     # call-site wiring of the class layer, regenerated from /repo on every run (translate_wiring.py)
     "PV.WiringRun.C12_run_build_hank",
     "PV.WiringRun.C01_run_realisation",
